@@ -288,6 +288,8 @@ def main():
     if not ck.replay_arg:
         xcmp, _ = vlib.repo_tool('xcmp')
         hexasm, _ = vlib.repo_tool('hexasm')
+        if not xcmp or not hexasm:
+            ck.broken.append('xcmp/hexasm do not build from the working tree: the whole-run comparison has no toolchain binaries')
         bins = []
         for src in sorted(glob.glob(os.path.join(vlib.REPO, 'tests', 'x', '*.x'))):
             if xcmp:
